@@ -3,7 +3,7 @@
    Keys are nat (rank of the key in keys.PublicKeys order). *)
 From Coq Require Import List Arith Bool.
 Import ListNotations.
-From NV Require Import IRing.Alphabet IRing.AlphabetCheck IRing.AlphabetProofs.
+From NV Require Import IRing.Alphabet IRing.AlphabetCheck IRing.AlphabetProofs IRing.AlphabetInd.
 
 (* [finite, by computation] newAlphabetList on exactly the domain the property quantifies over:
    every current alphabet fs (1..7 keys) and every main-network list mn (at least as many keys),
@@ -23,6 +23,42 @@ Theorem C36_alpha_ok_reading : forall fs mn alpha,
   new_count alpha fs <= (length fs - 1) / 3 /\ 0 < new_count alpha fs.
 Proof. exact alpha_ok_spec. Qed.
 
+(* [all lists, by induction over both loops] newAlphabetList for duplicate-free key lists of ARBITRARY
+   length (no universe bound).  What the code returns, case by case:
+     errEmptyFSChain   only for an empty current alphabet;
+     errNotEnoughKeys  only when the main-network list is shorter;
+     (nil, nil)        exactly when unchanged_cond holds: floor((n-1)/3) = 0, or the first n keys of the
+                       sorted main-network list are all current alphabet keys;
+     a list alpha      exactly when unchanged_cond fails, and then alpha_spec: same size as the current
+                       alphabet, no duplicates, every member from current or main-network list,
+                       1 <= number of keys outside the current alphabet <= floor((n-1)/3). *)
+Theorem C36_alphabet_all : forall fs mn,
+  NoDup fs -> NoDup mn ->
+  match new_alphabet_list fs mn with
+  | ErrEmpty => length fs = 0
+  | ErrShort => 0 < length fs /\ length mn < length fs
+  | Unchanged => 0 < length fs <= length mn /\ unchanged_cond fs mn
+  | Proposed alpha => 0 < length fs <= length mn /\ ~ unchanged_cond fs mn /\ alpha_spec fs mn alpha
+  end.
+Proof. exact new_alphabet_list_all. Qed.
+
+(* "it is only proposed when something changed": a proposed list contains a key that is not a current one ... *)
+Theorem C36_proposed_differs : forall fs mn alpha,
+  alpha_spec fs mn alpha -> exists x, In x alpha /\ ~ In x fs.
+Proof. exact proposed_differs. Qed.
+
+(* ... and when the main network lists only current alphabet keys nothing is proposed *)
+Theorem C36_same_alphabet_unchanged : forall fs mn,
+  NoDup fs -> NoDup mn -> 0 < length fs <= length mn -> incl mn fs ->
+  new_alphabet_list fs mn = Unchanged.
+Proof. exact same_alphabet_unchanged. Qed.
+
+(* the boolean form of C36_alphabet_universe8 without the universe bound *)
+Theorem C36_alpha_res_ok_all : forall fs mn,
+  NoDup fs -> NoDup mn -> 0 < length fs <= length mn ->
+  alpha_res_ok fs mn (new_alphabet_list fs mn) = true.
+Proof. exact alpha_res_ok_all. Qed.
+
 (* [all lists, by induction] the inner-ring list derived by the repaired updateInnerRing (fix commit in
    known_findings.txt): for duplicate-free lists of equal length with the current alphabet inside the inner
    ring, the call succeeds, the result has no duplicates and differs from the old list exactly by the replaced
@@ -33,6 +69,29 @@ Theorem C36_ir_list : forall ir before after,
   exists l, update_inner_ring ir before after = Some l /\ NoDup l /\
             forall z, In z l <-> (In z ir /\ ~ (In z before /\ ~ In z after)) \/ (In z after /\ ~ In z before).
 Proof. exact update_inner_ring_full. Qed.
+
+(* reading of the boolean inner-ring reference ir_ok, which the check evaluates on the Go results: it is
+   the conclusion of C36_ir_list *)
+Theorem C36_ir_ok_reading : forall ir fs alpha newir,
+  ir_ok ir fs alpha newir = true ->
+  NoDup newir /\
+  forall z, In z newir <-> (In z ir /\ ~ (In z fs /\ ~ In z alpha)) \/ (In z alpha /\ ~ In z fs).
+Proof. exact ir_ok_spec. Qed.
+
+(* end to end, what processAlphabetSync computes (pipeline = newAlphabetList; updateInnerRing with
+   before = the sorted current alphabet; sort): for duplicate-free lists of any length with the alphabet inside
+   the inner ring, either nothing is proposed (exactly under unchanged_cond) or a new alphabet with alpha_spec
+   and a duplicate-free inner-ring list that differs from the old one exactly by the replaced keys *)
+Theorem C36_pipeline : forall fs mn ir,
+  NoDup fs -> NoDup mn -> NoDup ir -> incl fs ir -> 0 < length fs <= length mn ->
+  match pipeline fs mn ir with
+  | (Unchanged, None) => unchanged_cond fs mn
+  | (Proposed a, Some l) =>
+      ~ unchanged_cond fs mn /\ alpha_spec fs mn a /\ NoDup l /\
+      forall z, In z l <-> (In z ir /\ ~ (In z fs /\ ~ In z a)) \/ (In z a /\ ~ In z fs)
+  | _ => False
+  end.
+Proof. exact pipeline_all. Qed.
 
 (* the code before the repair (model update_inner_ring_old / pipeline_old): an extra inner-ring key that gets
    voted into the alphabet ended up twice in the new inner-ring list:
@@ -49,10 +108,29 @@ Example C36_example :
   /\ alpha_ok [5;2;3;4;1;6;7] [0;1;2;3;8;9;4] [0;1;2;3;4;5;8] = true
   /\ pipeline [1;2;3;4] [0;1;2;3] [4;3;2;1;7] = (Proposed [0;1;2;3], Some [0;1;2;3;7])
   /\ pipeline [1;2;3;4] [0;1;2;3] [1;2;3;4;0] = (Proposed [0;1;2;3], Some [0;1;2;3])
-  /\ new_alphabet_list [1;2;3] [1;2;3;4] = Unchanged.
+  /\ new_alphabet_list [1;2;3] [1;2;3;4] = Unchanged
+  /\ new_alphabet_list [10;11;12;13;14;15;16;17;18;19] [0;1;2;3;4;12;13;14;15;16;17;18;19;20] = Proposed [0;1;2;12;13;14;15;16;17;18]
+  /\ new_alphabet_list [4;5;6;7] [0;1;4;5;6;7] = Proposed [0;4;5;6].
 Proof. vm_compute. repeat split; reflexivity. Qed.
+
+(* premises of C36_alphabet_all / C36_ir_list are satisfiable, and both outcomes of unchanged_cond occur *)
+Example C36_example_premises :
+  NoDup [10;11;12;13;14;15;16;17;18;19] /\ NoDup [0;1;2;3;4;12;13;14;15;16;17;18;19;20]
+  /\ ~ unchanged_cond [4;5;6;7] [0;1;4;5;6;7] /\ unchanged_cond [4;5;6;7] [4;5;6;7;8;9].
+Proof.
+  split; [apply nodupb_spec; reflexivity|]. split; [apply nodupb_spec; reflexivity|]. split.
+  - intros [H|H]; [vm_compute in H; discriminate|]. specialize (H 0 (or_introl eq_refl)). simpl in H.
+    repeat destruct H as [H|H]; try discriminate; exact H.
+  - right. intros x Hx. vm_compute in Hx. exact Hx.
+Qed.
 
 Print Assumptions C36_alphabet_universe8.
 Print Assumptions C36_alpha_ok_reading.
+Print Assumptions C36_alphabet_all.
+Print Assumptions C36_proposed_differs.
+Print Assumptions C36_same_alphabet_unchanged.
+Print Assumptions C36_alpha_res_ok_all.
 Print Assumptions C36_ir_list.
+Print Assumptions C36_ir_ok_reading.
+Print Assumptions C36_pipeline.
 Print Assumptions C36_ir_list_old_refuted.
